@@ -25,6 +25,9 @@ func (g G) RefWorld(nPaths int, simple bool) m.WorldM {
 			p.Funcs = map[string]m.FuncM{
 				"f":    {Params: []m.ParamM{{Name: "p0", Ty: m.TyOf(cty.DynamicPseudoType)}}, Ret: m.TyOf(cty.DynamicPseudoType)},
 				"join": {Params: []m.ParamM{{Name: "sep", Ty: m.TyOf(cty.String)}}, VarParam: &m.ParamM{Name: "rest", Ty: m.TyOf(cty.DynamicPseudoType)}, Ret: m.TyOf(cty.String)},
+				// parameters of mutually non-convertible types: the slot decides what fits
+				"typed3": {Params: []m.ParamM{{Name: "flag", Ty: m.TyOf(cty.Bool)}, {Name: "n", Ty: m.TyOf(cty.Number)}, {Name: "xs", Ty: m.TyOf(cty.List(cty.String))}}, Ret: m.TyOf(cty.Bool)},
+				"nums":   {Params: []m.ParamM{{Name: "m", Ty: m.TyOf(cty.Map(cty.Bool))}}, VarParam: &m.ParamM{Name: "rest", Ty: m.TyOf(cty.Number)}, Ret: m.TyOf(cty.Number)},
 			}
 		}
 		nf := g.Int(1, 2)
@@ -186,7 +189,17 @@ func (g G) refExpr(simple bool) string {
 	if simple {
 		return a
 	}
-	switch g.Weighted(55, 10, 8, 8, 7, 6, 6) {
+	switch g.Weighted(55, 10, 8, 8, 7, 6, 6, 12) {
+	case 7:
+		// a call of a function with typed parameters, written with gaps after the commas
+		// and possibly fewer / more arguments than parameters
+		fn := Pick(g, []string{"typed3", "nums"})
+		n := g.Int(1, 4)
+		args := make([]string, n)
+		for i := range args {
+			args[i] = Pick(g, []string{a, g.refAddr(simple), "true", "1", `["x"]`, "{ k = true }"})
+		}
+		return fn + "(" + strings.Join(args, Pick(g, []string{",  ", ", ", " ,  "})) + ")"
 	case 1:
 		return `"pre-${` + a + `}"`
 	case 2:
